@@ -148,10 +148,6 @@ pub fn check_tables(ctx: &mut Ctx, shard: usize, shards: usize) -> Result<(), Vi
         want!(ctx, "square:conversions", ALL_SQUARES[a as usize], sa, "ALL_SQUARES[{}]", a);
         want!(ctx, "square:constants", NAMED[a as usize], sa, "Square::{}", sq_name(a).to_uppercase());
         want!(ctx, "square:conversions", format!("{}", sa), sq_name(a), "Display of square {}", a);
-        for k in 0..4u16 {
-            let v = (a as u16 + 64 * k) as u8;
-            want!(ctx, "square:new-wraps", Square::new(v), sa, "Square::new({})", v);
-        }
         want!(ctx, "square:conversions", BitBoard::from_square(sa).0, bit(a), "BitBoard::from_square({})", sq_name(a));
         ctx.evals_add(12);
         // stepping helpers
@@ -215,15 +211,13 @@ pub fn check_tables(ctx: &mut Ctx, shard: usize, shards: usize) -> Result<(), Vi
             want!(ctx, "table:adjacent-files", get_adjacent_files(File::from_index(i)).0, adj, "get_adjacent_files({})", i);
             want!(ctx, "enum:all", ALL_RANKS[i].to_index(), i, "ALL_RANKS[{}]", i);
             want!(ctx, "enum:all", ALL_FILES[i].to_index(), i, "ALL_FILES[{}]", i);
-            for k in 0..40usize {
-                want!(ctx, "enum:from_index", Rank::from_index(i + 8 * k).to_index(), i, "Rank::from_index({})", i + 8 * k);
-                want!(ctx, "enum:from_index", File::from_index(i + 8 * k).to_index(), i, "File::from_index({})", i + 8 * k);
-            }
+            want!(ctx, "enum:from_index", Rank::from_index(i).to_index(), i, "Rank::from_index({})", i);
+            want!(ctx, "enum:from_index", File::from_index(i).to_index(), i, "File::from_index({})", i);
             want!(ctx, "enum:step", Rank::from_index(i).up().to_index(), (i + 1) % 8, "Rank {}.up()", i);
             want!(ctx, "enum:step", Rank::from_index(i).down().to_index(), (i + 7) % 8, "Rank {}.down()", i);
             want!(ctx, "enum:step", File::from_index(i).right().to_index(), (i + 1) % 8, "File {}.right()", i);
             want!(ctx, "enum:step", File::from_index(i).left().to_index(), (i + 7) % 8, "File {}.left()", i);
-            ctx.evals_add(90);
+            ctx.evals_add(12);
         }
         let edges: u64 = (0..64u8).filter(|s| file_of(*s) == 0 || file_of(*s) == 7 || rank_of(*s) == 0 || rank_of(*s) == 7).fold(0, |x, s| x | bit(s));
         want!(ctx, "table:edges", EDGES.0, edges, "EDGES");
@@ -311,7 +305,7 @@ pub fn run(cfg: &Cfg) -> i32 {
     engine::finish(
         report,
         EvidenceSpec {
-            rule: "cases = every argument of every exported geometry function: 64 squares (conversions, named constants, Display, 12 step helpers incl. wrapping variants, king/knight tables, rook/bishop rays), 64x64 pairs (between for all, line for aligned distinct pairs), 8 ranks/files (masks, adjacent files, from_index wrap, up/down/left/right), colours; pawn attacks/quiets/moves for 64 squares x 2 colours x all 16 occupancy patterns of the four relevant squares x generated noise on the other squares (all 64 squares, including the first and last rank where the sets are what the movement rule leaves on the board). evaluations = function results compared. Non-trivial = aligned pair, or pawn call with at least one relevant square occupied; distinct = argument fingerprints.".into(),
+            rule: "cases = every argument of every exported geometry function: 64 squares (conversions, named constants, Display, 12 step helpers incl. wrapping variants, king/knight tables, rook/bishop rays), 64x64 pairs (between for all, line for aligned distinct pairs), 8 ranks/files (masks, adjacent files, from_index, wrapping up/down/left/right), colours; pawn attacks/quiets/moves for 64 squares x 2 colours x all 16 occupancy patterns of the four relevant squares x generated noise on the other squares (all 64 squares, including the first and last rank where the sets are what the movement rule leaves on the board). evaluations = function results compared. Non-trivial = aligned pair, or pawn call with at least one relevant square occupied; distinct = argument fingerprints.".into(),
             assumptions: vec!["coordinate arithmetic oracle written from the definitions (file = index mod 8, rank = index div 8)".into()],
             trusted_base: vec!["harness/src/props/c16.rs oracle functions".into(), "proptest 1.11 (noise)".into()],
             exhaustive: Some(true),
